@@ -7,7 +7,7 @@
                              that end up with no cell, files with duplicate cells)
   partmeshb_c20    np 1..3   the malformed share: vertex index 0, -1, nnode+1 (exactly one past), nnode+2, 2^31-1,
                              2^32+1 (v4) in the first / a later position of tet / tri / edge records, counts larger
-                             and smaller than the file, truncation at record boundaries, dimension / version /
+                             and smaller than the file (2^31-1, 2^32, 2^32+k, -1, one above what the file holds), truncation at record boundaries, dimension / version /
                              next-position substitutions, bit flips
   partmeshb_chunk  np 2,3(,4,5)  one generated edge file with more records than the read chunk (1000000) of
                              ref_part_meshb_cell, marker cells on both sides of every chunk boundary
@@ -474,6 +474,9 @@ def oracle_part(ops, impl):
             elif tag in ('valid', 'dups'):
                 fails.append((i, 'a well-formed file was rejected with %s' % line))
             continue
+        if tag == 'refuse':
+            fails.append((i, 'a file whose declared record count exceeds the file was accepted'))
+            continue
         if fc is None:
             continue
         if fc['bad_index']:
@@ -532,7 +535,7 @@ def section_fields(w, kw, kind):
 def gen_c20(rng, tier, np):
     ops = []
     n_index = {1: 60, 2: 8, 3: 8}.get(np, 6) * (1 if tier == 'quick' else 3)
-    n_other = {1: 70, 2: 8, 3: 8}.get(np, 6) * (1 if tier == 'quick' else 3)
+    n_other = {1: 80, 2: 12, 3: 12}.get(np, 6) * (1 if tier == 'quick' else 3)
     for _ in range(n_index):
         version = rng.choice([2, 3, 4])
         inside = rng.random() < 0.25          # replace by a VALID index (first / last vertex): must be accepted
@@ -565,8 +568,10 @@ def gen_c20(rng, tier, np):
             fs = [f for f in w.fields if f[0] == 'count']
             f = rng.choice(fs)
             old = struct.unpack_from('<q' if f[2] == 8 else '<i', data, f[1])[0]
-            # below np * 1000000 the read chunk stays 1000000 (larger declared counts size the buffers: see ASSUMPTIONS)
-            new = rng.choice([old + 1, old + 3, 2 * old + 1, old - 1, 0, -1, -5, 999999, 1000001 if np > 1 else old + 7])
+            # what ref_part_meshb_count_fits lets through: the bytes after the count field / 4
+            cap = (len(data) - (f[1] + f[2])) // 4
+            new = rng.choice([old + 1, old + 3, 2 * old + 1, old - 1, 0, -1, -5, 999999, 1000001, cap, cap + 1,
+                              cap + 1000, 2 ** 31 - 1, -(2 ** 31), 2 ** 32, 2 ** 32 + rng.randint(1, 9), 2 ** 63 - 1])
             if f[1] > w.sections[1][1] and f[1] < w.sections[1][2]:
                 new = rng.choice([old + 1, old - 1, 0, -1, 2 ** 31 - 1, 5 * old, -7])  # the vertex count sizes nothing
             m = put(data, f, new)
@@ -601,24 +606,36 @@ def gen_c20(rng, tier, np):
             ops.append(op_part(np, m))
     ops.append(op_part(np, b''))
     ops.append(op_part(np, struct.pack('<ii', 1, 2)))
+    for data in witness_files():
+        ops.append(op_part(np, data, 'refuse'))
     return ops
 
 
 def hazard(data, w):
-    """declared cell / geometry / byte counts above 1.2e6: they size the read buffers (`size_per * chunk` in int: overflow
-    above 2^31, a 2^32 count makes `section_size` 0 = an infinite loop).  Kept out of the default generation, see
-    findings/partmeshb-* and ASSUMPTIONS.  `w`: the writer of the unmutated file (offsets of the count fields)."""
-    vs, ve = w.sections[1][1], w.sections[1][2]
+    """the only declared count still kept out of the generated mutants: a CAD byte count outside [0, 2^30] (keyword 126;
+    read as unsigned, it sizes one malloc that succeeds lazily up to the sanitizer's allocation limit and fails above
+    it - the model returns REF_NULL above its allocator cap of 2^30, see ASSUMPTIONS).  Cell and geometry counts are
+    checked by ref_part_meshb_count_fits since /repo 4474557 and are mutated freely.
+    `w`: the writer of the unmutated file (offsets of the count fields)."""
     cad = [(a, b) for k, a, b in w.sections if k == 126]
     for kind, off, width in w.fields:
-        if kind != 'count' or vs <= off < ve or off + width > len(data):
+        if kind != 'count' or off + width > len(data) or not any(a <= off < b for a, b in cad):
             continue
         c = struct.unpack_from('<q' if width == 8 else '<i', data, off)[0]
-        if abs(c) > 1200000:
+        if c < 0 or c > 2 ** 30:
             return True
-        if c < 0 and any(a <= off < b for a, b in cad):
-            return True  # the byte count is read as unsigned: 2^32 - |c| bytes are allocated before the read
     return False
+
+
+def witness_files():
+    """the four files of findings/partmeshb-count-*: endless loop / int overflow before /repo 4474557, refused now"""
+    out = []
+    for d, names in (('partmeshb-count-2pow32-hang', ('cells_2pow32_v4', 'geoms_2pow32_v4')),
+                     ('partmeshb-count-int-overflow', ('tets_intmax_v2', 'edges_intmax_v2'))):
+        for n in names:
+            with open(os.path.join(common.VERIF, 'findings', d, n + '.meshb'), 'rb') as f:
+                out.append(f.read())
+    return out
 
 
 # ------------------------------------------------------------------ chunk crossing
